@@ -316,8 +316,27 @@ def getstr(v):
     return repr(v)
 
 
+def echoes(line, name, v):
+    """`line` echoes setting `name` with value `v`: it names the setting and shows the value (booleans as
+    true/false in any case, strings quoted or bare) - the exact layout is not pinned by the property."""
+    if name not in line:
+        return False
+    rest = line.replace(name, '', 1)
+    if isinstance(v, bool):
+        return ('true' if v else 'false') in rest.lower() and ('false' if v else 'true') not in rest.lower()
+    return repr(v) in rest or (v != '' and v in rest) or (v == '' and rest.strip(' :=') in ('', "''", '""'))
+
+
+_ERR = None
+
+
 def has_error(err):
-    return any(line.startswith('error:') for line in shell.style.strip(err).splitlines())
+    """An error message was printed: a line that starts with the word 'error' (any case, any decoration)."""
+    global _ERR
+    if _ERR is None:
+        import re
+        _ERR = re.compile(r'^\W*error\b', re.IGNORECASE)
+    return any(_ERR.match(line) for line in shell.style.strip(err).splitlines())
 
 
 class NullOut:
@@ -383,7 +402,16 @@ def execute(case, keep_log=False):
                 sh._extract_queries(entries)
             sh.use_rawinput = False
             sh.stdout = NullOut()
-            M = dict(DEFAULTS, format=op.get('format', 'text'), numberify=op.get('numberify', False))
+            # the model starts from a fresh settings store as the code itself defines it (defaults are not
+            # pinned by the property and a release may add settings); a new session must start exactly there
+            try:
+                M = dict(shell.Settings(format=op.get('format', 'text'), numberify=op.get('numberify', False)).todict())
+            except Exception:
+                M = dict(DEFAULTS, format=op.get('format', 'text'), numberify=op.get('numberify', False))
+            real0 = sh.settings.todict()
+            if real0 != M:
+                violation('session-start-settings', f's{ci}', op, M, real0)
+                M = dict(real0)
             sess[ci] = {'sh': sh, 'out': out, 'M': M, 'mode': op.get('mode', 'onecmd')}
             log.add('open', ci, op.get('format'), op.get('numberify'), op.get('mode'))
 
@@ -429,7 +457,7 @@ def execute(case, keep_log=False):
                             if real.get(k) != sess[cj]['M'].get(k)}
                     violation('settings-store', where, op, {'session': cj, 'model_vs_real': diff}, None,
                               ':other-session' if cj != ci else ':' + op['op'])
-                    sess[cj]['M'] = dict(real) if set(real) == set(DEFAULTS) else sess[cj]['M']
+                    sess[cj]['M'] = dict(real)
                 if cj != ci and sess[cj]['out'].chunks:
                     violation('session-isolation', where, op, 'nothing written to the other session', sess[cj]['out'].take()[:200])
                 elif cj != ci:
@@ -503,14 +531,15 @@ def execute(case, keep_log=False):
                 got, err, so, exc, _ = feed(ci, '.set')
                 log.add(where, k, got)
                 exp = sorted(f'{name}: {getstr(M[name])}' for name in M)
-                if exc or sorted(got.splitlines()) != exp:
+                lines = got.splitlines()
+                if exc or not all(any(echoes(l_, name, M[name]) for l_ in lines) for name in M):
                     violation('set-echo', where, op, exp, got if not exc else core.exc_class(exc))
             elif k == 'set_show':
                 got, err, so, exc, _ = feed(ci, f'.set {op["name"]}')
                 log.add(where, k, op['name'], got, has_error(err))
                 if op['name'] in M:
                     exp = f'{op["name"]}: {getstr(M[op["name"]])}\n'
-                    if exc or got != exp:
+                    if exc or len(got.splitlines()) != 1 or not echoes(got, op['name'], M[op['name']]):
                         violation('set-echo', where, op, exp, got if not exc else core.exc_class(exc))
                 else:
                     if not errored(exc, err, s['mode']) or got:
